@@ -682,7 +682,7 @@ def run(chk: core.Check):
     quick = chk.tier == "quick"
     for c in core.load_corpus(PROP):
         replay_case(chk, env, c, lines, expect)
-    for name in s3.MODELS:
+    for name in [n for n in s3.MODELS if "/" not in n]:   # (C03's mixture entry is C03's business)
         for _ in range(2 if quick else 6):
             case_terms_and_sampler(chk, env, name, rng.randrange(1, 10 ** 6), lines, expect)
     pm = list(P_MODELS)
